@@ -10,6 +10,9 @@ import Pfl.Model.PyRender
 import Pfl.Model.Regex
 import Pfl.Spec.Regex
 import Pfl.Props.C07_Desugar
+import Pfl.Proofs.E2EStage1
+import Pfl.Proofs.E2EPass5
+import Pfl.Proofs.E2E3Stage
 namespace Pfl
 namespace PyRx
 
@@ -82,17 +85,68 @@ def Correct (S : P → Prop) : Prop :=
   ∀ p, S p → ∃ fuel r, pythonRegexTree (render p .top) fuel = some r ∧
     ∀ w : List Char, (∀ c ∈ w, c ∈ printable) → (Rx.Denote r (word w) ↔ Matches printable p w)
 
+theorem Stage1.frag1 : ∀ p, Stage1 p → E2E.Frag1 p
+  | .lit _, h => h
+  | .cat a b, h => ⟨Stage1.frag1 a h.1, Stage1.frag1 b h.2⟩
+  | .alt a b, h => ⟨Stage1.frag1 a h.1, Stage1.frag1 b h.2⟩
+  | .star a, h => Stage1.frag1 a h
+
 theorem pythonRegex_correct_stage1 : Correct Stage1 := by
-  sorry
+  intro p hp
+  obtain ⟨t, fuel, r, h1, h2, h3⟩ := E2E.stage1 p (Stage1.frag1 p hp)
+  exact ⟨fuel, r, by simp [pythonRegexTree, h1, h2], fun w _ => h3 w⟩
+
+theorem Stage2.frag2 : ∀ p, Stage2 p → E2E.Frag2 p
+  | .lit _, h => h
+  | .cat a b, h => ⟨Stage2.frag2 a h.1, Stage2.frag2 b h.2⟩
+  | .alt a b, h => ⟨Stage2.frag2 a h.1, Stage2.frag2 b h.2⟩
+  | .star a, h => Stage2.frag2 a h
+  | .plus a, h => Stage2.frag2 a h
+  | .opt a, h => Stage2.frag2 a h
+  | .rep a _ _, h => ⟨Stage2.frag2 a h.1, h.2⟩
 
 theorem pythonRegex_correct_stage2 : Correct Stage2 := by
-  sorry
+  intro p hp
+  obtain ⟨t, fuel, r, h1, h2, h3⟩ := E2E.stage2 p (Stage2.frag2 p hp)
+  exact ⟨fuel, r, by simp [pythonRegexTree, h1, h2], fun w _ => h3 w⟩
+
+theorem Stage3.frag3 : ∀ p, Stage3 p → E2E.S3.Frag3 p
+  | .lit _, h => h
+  | .dot, _ => trivial
+  | .short _, h => h
+  | .cat a b, h => ⟨Stage3.frag3 a h.1, Stage3.frag3 b h.2⟩
+  | .alt a b, h => ⟨Stage3.frag3 a h.1, Stage3.frag3 b h.2⟩
+  | .star a, h => Stage3.frag3 a h
+  | .plus a, h => Stage3.frag3 a h
+  | .opt a, h => Stage3.frag3 a h
+  | .rep a _ _, h => ⟨Stage3.frag3 a h.1, h.2⟩
 
 theorem pythonRegex_correct_stage3 : Correct Stage3 := by
-  sorry
+  intro p hp
+  obtain ⟨t, fuel, r, h1, h2, h3⟩ := E2E.S3.stage3 p (Stage3.frag3 p hp)
+  exact ⟨fuel, r, by simp [pythonRegexTree, h1, h2], fun w _ => h3 w⟩
+
+theorem GoodItem.goodIt : ∀ it, GoodItem it → E2E.S3.GoodIt it
+  | .ch _, h => h
+  | .range _ _, h => h
+  | .short _, h => h
+
+theorem Stage4.frag4 : ∀ p, Stage4 p → E2E.S3.Frag4 p
+  | .lit _, h => h
+  | .dot, _ => trivial
+  | .short _, h => h
+  | .set _ _, h => ⟨h.1, fun it hit => GoodItem.goodIt it (h.2 it hit)⟩
+  | .cat a b, h => ⟨Stage4.frag4 a h.1, Stage4.frag4 b h.2⟩
+  | .alt a b, h => ⟨Stage4.frag4 a h.1, Stage4.frag4 b h.2⟩
+  | .star a, h => Stage4.frag4 a h
+  | .plus a, h => Stage4.frag4 a h
+  | .opt a, h => Stage4.frag4 a h
+  | .rep a _ _, h => ⟨Stage4.frag4 a h.1, h.2⟩
 
 theorem pythonRegex_correct_stage4 : Correct Stage4 := by
-  sorry
+  intro p hp
+  obtain ⟨t, fuel, r, h1, h2, h3⟩ := E2E.S3.stage4 p (Stage4.frag4 p hp)
+  exact ⟨fuel, r, by simp [pythonRegexTree, h1, h2], fun w _ => h3 w⟩
 
 end PyRx
 end Pfl
